@@ -179,7 +179,8 @@ fn run_schedule_inner(sc: &Scenario, prefix: &[usize]) -> Result<OneRun, ExecErr
     Ok(OneRun { points, violations })
 }
 
-pub fn interleavings(run: &Run) {
+/// `hist_states` / `hist_transitions`: what the request-level leg covered (added to this leg's counts in the evidence).
+pub fn interleavings(run: &Run, hist_states: u64, hist_transitions: u64) {
     let scs = scenarios();
     let bound = if run.quick() { 1 } else { 2 };
     let deadline = run.start + Duration::from_secs_f64(run.budget_s);
@@ -222,7 +223,11 @@ pub fn interleavings(run: &Run) {
     run.put("interleavings", json!({"scenarios": scs.len(), "schedules": t.0, "scheduling_points_visited": t.1, "preemption_bound": bound, "preemption_bound_completed_in_every_scenario": if t.2 == usize::MAX { 0 } else { t.2 }, "deadlocks": t.3,
         "rule": "six scenarios of 2-3 threads (each 1-2 requests: a session adding a fact / rule, clearing, retracting or querying; the writer inserting, deleting, registering a rule; a session-less request with a local fact) on one real Handler; ALL schedules with at most B preemptions at the scheduling points of SessionManager (every session read/write lock), the session-query slow path (after the session state is read, after the snapshot is taken) and the storage engine; oracle: brute-force linearizability of the recorded answers plus the state every observer sees afterwards"}));
     run.put("schedules", json!(t.0));
-    run.put("traces_validated_against_impl", json!(t.0));
+    // states = histories executed (each ends in a state that was judged) + scheduling points visited;
+    // every history and every schedule is a trace executed on the real Handler
+    run.put("states", json!(hist_states + t.1));
+    run.put("transitions", json!(hist_transitions + t.1));
+    run.put("traces_validated_against_impl", json!(hist_states + t.0));
 }
 
 pub fn replay(args: &Args, case: &serde_json::Value) -> i32 {
